@@ -1,11 +1,16 @@
 #!/bin/bash
-# usage: harness/seed_matrix.sh [tier] [parallel]  — every seeded change against the check of its own property, each in an isolated scratch
+# usage: harness/seed_matrix.sh [tier] [parallel]  — every seeded change (or, with SEEDPROPS="C08 C11", only those of the named properties; the other rows of RESULTS.tsv are kept) against the check of its own property, each in an isolated scratch
 # worktree of /repo + scratch copy of /verif (harness/seedtest_iso.sh); writes seeded/RESULTS.tsv.  /repo and /verif/lean are not touched.
 cd /verif
 tier="${1:-quick}"; par="${2:-4}"
 out=seeded/RESULTS.tsv
 tmp=$(mktemp -d /tmp/seedmatrix-XXXX)
 ls -d seeded/*/ | while read d; do s=$(basename $d); [ -f "$d/patch.diff" ] && echo "$s"; done > $tmp/list
+if [ -n "$SEEDPROPS" ]; then
+  pat=$(echo $SEEDPROPS | sed 's/ /|/g')
+  grep -E "^($pat)-" $tmp/list > $tmp/list2; mv $tmp/list2 $tmp/list
+  grep -vE "^($pat)-|^seed" $out > $tmp/keep 2>/dev/null || true
+fi
 run_one() {
   s="$1"; slot="$2"; pid=${s%-*}
   if ! ( cd /repo && git apply --check "/verif/seeded/$s/patch.diff" 2>/dev/null ); then echo -e "$s\t$pid\t-\tSTALE (patch does not apply)"; return; fi
@@ -25,6 +30,6 @@ for slot in $(seq 0 $((par-1))); do
 done
 wait
 echo -e "seed\tproperty\trc\tverdict" > $out
-cat $tmp/out.* | sort >> $out
+cat $tmp/out.* $( [ -f $tmp/keep ] && echo $tmp/keep ) | sort >> $out
 rm -rf $tmp
 cat $out
